@@ -41,6 +41,7 @@ class NondetStream:
         self.seed_value = seed
         self.n = 0
         self.log = []  # (kind, population, weights, picked_index)
+        self._draws = []
 
     def seed(self, s=None):
         self.seed_value = s
@@ -84,6 +85,10 @@ class NondetStream:
         zv = z3.Real(name)
         c.inputs[name] = (zv, 'real')
         c.add(z3.And(zv >= 0, zv < 1))
+        # contract of the stub: successive uniform draws of one stream are pairwise distinct
+        for prev in self._draws:
+            c.add(zv != prev)
+        self._draws.append(zv)
         return SymReal(zv)
 
     def choices(self, population, weights=None, *, cum_weights=None, k=1):
